@@ -72,6 +72,10 @@ PROPS = {
                 text="The real meek_lite client (real net/http transport over the simulated network, runtime select order from the seeded seam) against a reference HTTP/1.1 server that records bodies, session ids and overlap and answers 200 with tape-sized slices (empty, small, partial, full 64 KiB) of a position-coded downstream stream; application writes of 1 byte .. 3 x 65536 with pauses up to 7 s (so the 100 ms .. 5 s poll back-off runs), Close at a tape-chosen instant; oracle: request bodies in order are exactly the written stream (complete after 20 quiet virtual minutes if not closed), Read delivers exactly the response bodies, bodies <= 65536, one session id, never two requests in flight, after Close Write fails, Read fails after a bounded drain, at most one more request and none in the following hour.",
                 note="net/http's internal goroutines are not named tasks; they meet the simulation only through simnet operations. Fault-free server only (non-200 / dropped connections are exercised in C10).",
                 technique=TECH + "reference HTTP server with conservation oracle under seeded scheduling, select order and virtual-time polling"),
+    "C10": dict(engine="wire", quick=40, thorough=600, level="exploration", design="DESIGN.md section 4, C10",
+                text="Chaos peers against every endpoint: (a) garbage of boundary lengths (0..20000) in pieces with pauses, ended by silence / EOF / close / RST, fed to obfs2, obfs3, obfs4 (both roles each), the ScrambleSuit client and the SOCKS5 front end (also with valid-looking prefixes); (b) real client/server pairs of obfs2/3/4 with one stream mutation (flip, insert, delete, duplicate, truncate+EOF, truncate+silence) or link fault (cut-EOF, cut-RST, write error, stalls of 1 s / 45 s / forever) at an offset in the first 12000 bytes of either direction; (c) ScrambleSuit client against bit flips, cuts, garbage and oversize replies; (d) meek_lite against non-200, mixed status, dropped / garbage / truncated / stalled responses; (e) an idle virtual hour after each successful handshake followed by traffic; (f) floods of 12 MiB at handshake-phase servers and at obfs4 clients whose application does not read, with heap growth measured after GC. Oracle: no panic, every handshake call returns within its deadline bound, deadlines disarmed on success, failed handshakes close the conn, Read returns after the stream ends, heap growth < 4 MiB.",
+                note="Inputs are seeded structured mutations of valid exchanges, not coverage-guided (not available in this family). A task that never yields is caught by the per-process wall-clock watchdog and reported as a hang. Heap measurements are black-box (runtime.ReadMemStats inside the run).",
+                technique=TECH + "chaos peer: garbage, stream mutation and link faults at seeded offsets on a virtual clock; black-box heap bound under flood"),
     "C11": dict(engine="woven", quick=40, thorough=600, level="exploration", design="DESIGN.md section 4, C11",
                 text="Sequential: tape-generated histories of up to 24 (value, time step) operations over 2-6 values with steps 0, 1 ns, ttl/3, ttl-1, ttl, ttl+1, 10 ttl, random and jumps back before the oldest entry, three TTLs, in lockstep with a reference insertion-ordered expiring set. Capacity: 102400+k distinct values then probes of the newest / a middle / the oldest value. Concurrent: 2-4 caller tasks x 1-3 TestAndSet calls on 1-3 values with the filter woven (a preemption point before every statement, simsync mutex); histories stamped with the global event sequence number are checked for linearizability against the sequential model with porcupine, and with identical timestamps exactly one submission per value must be told 'new'.",
                 note="Trusted: simulator, weave (statement-level yields, sync -> simsync), porcupine v1.3.0, the reference set model. Partial backward clock steps are not generated (undefined by the statement). Data races inside one statement are out of reach.",
